@@ -556,6 +556,34 @@ func gen(tier string, seed uint64) []runner.Scenario {
 		})
 	}
 
+	// E2. many metadata header lines: what the gateway allocates for them stays proportional to their size
+	add("http/header/many", func(a *acc) {
+		h := scriptHandler{reads: 0, sends: [][]byte{[]byte("x")}}
+		for _, n := range []int{10, 100, 500, 2000} {
+			for _, same := range []bool{false, true} {
+				var hs []string
+				total := 0
+				for i := 0; i < n; i++ {
+					k := fmt.Sprintf("key-%d", i)
+					if same {
+						k = "key"
+					}
+					e := k + "=value%20" + fmt.Sprint(i)
+					hs = append(hs, e)
+					total += len(e)
+				}
+				limit := uint64(200*total + 1<<20)
+				var d uint64
+				ok := a.guard("ServeHTTP(many headers)", func() string { return fmt.Sprintf("%d metadata header lines", n) }, func() {
+					d = allocDelta(func() { serve(h, "application/proto", bytes.NewReader(nil), hs) })
+				})
+				if ok && d > limit {
+					a.fail("http-header-alloc-bound", "%d X-Drpc-Metadata lines (%d bytes, distinct keys=%v): the request allocated %d bytes (> %d = 200 x the header bytes + 1 MiB)", n, total, !same, d, limit)
+				}
+			}
+		}
+	})
+
 	// F. gateway bodies
 	for ci, ct := range contentTypes {
 		ct := ct
